@@ -593,6 +593,16 @@ Section ComponentsOk.
     - intros u v _ Hst. apply (Hcore u v Hst).
   Qed.
 
+  Lemma succ_rows_closed : forall (g : gstate),
+    wstep_ok_b teqb g = true ->
+    forall u w, In w (name_row teqb (successors g) u) -> In w (g_nodes g).
+  Proof.
+    intros g H u w Hw. unfold wstep_ok_b in H. apply andb_true_iff in H. destruct H as [Hs _].
+    rewrite forallb_forall in Hs. destruct (lookup_In_row _ _ _ Hw) as [row [Hin Hv]].
+    specialize (Hs _ Hin). rewrite forallb_forall in Hs. specialize (Hs w Hv).
+    apply andb_true_iff in Hs. destruct Hs as [H1 _]. apply (memb_In teqb teqb_spec). exact H1.
+  Qed.
+
   Corollary connected_components_checked : forall (g : gstate) cs,
     step_ok_b teqb g = true ->
     connected_components teqb g = Ok cs ->
